@@ -2,7 +2,8 @@
    bytes of the value (snd (enc (norm v))) at the end of the segment and returns a pointer whose
    word, wherever it is stored, is fst (enc (norm v)).  Q_fill: fillCanonicalStruct writes the
    block (data words, pointer words) and appends the children in pointer order = enc_cells.
-   Domain so far ([cdom]): values built from structs and nulls, of any depth and shape. *)
+   No domain restriction: a capability makes canonicalPtr fail, so the hypothesis 'returns KOk'
+   already excludes values containing one. *)
 From CV Require Import Value.ValueEq Value.ValueEqProofs Value.EqualM Value.Den Value.DenFacts Value.DenLists
                        Value.CanonSpec Value.CanonProofs Value.CanonProofs3 Value.CanonM Value.CanonMStruct
                        Value.CanonMWords Value.CanonMData Value.CanonMHeap Value.CanonMLoop Value.CanonSafe Value.EqualProofs Value.CanonMProofs.
@@ -10,18 +11,6 @@ From CV Require Import Core.ReaderFacts Core.SafetyProofs Core.BuilderFacts Core
 From Coq Require Import ZifyBool ZifyNat.
 Ltac Zify.zify_post_hook ::= Z.div_mod_to_equations.
 Open Scope Z_scope.
-
-(* the domain proved so far: no capabilities (Canonicalize reports an error for them), and only
-   the list kinds whose case of canonicalList is proved: void, pointer and struct lists *)
-Fixpoint cdom (v : value) : bool :=
-  match v with
-  | VNull => true
-  | VStruct _ ps => forallb cdom ps
-  | VList LPtr es => forallb cdom es
-  | VList LComp es => false
-  | VList _ _ => true
-  | _ => false
-  end.
 
 Definition aligned (p : Ptr) : Prop := p_kind p = KStruct -> DataSize (p_size p) mod 8 = 0.
 
@@ -46,6 +35,47 @@ Proof.
   intros H. inversion H; subst. intros K. discriminate K.
 Qed.
 
+
+(* composite lists handed out by readPtr have word-aligned element data sections (tag word) *)
+Definition caligned (p : Ptr) : Prop := p_comp p = true -> DataSize (p_size p) mod 8 = 0 /\ p_bit p = false.
+
+Lemma readListPtr_caligned strict sid s base val lp : readListPtr strict sid s base val = Ok lp -> caligned lp.
+Proof.
+  unfold readListPtr. destruct (element base (ptr_offset val) 8); [|discriminate].
+  destruct (totalListSize val) as [[lsize|]|]; try discriminate.
+  destruct (negb (regionInBounds s z lsize)); [discriminate|]. cbv zeta.
+  destruct (listType val =? 7).
+  - destruct (readRawPointer s z) as [hdr| |]; try discriminate. cbn [bind].
+    destruct (addSize z 8); [|discriminate].
+    destruct (negb (pointerType hdr =? structPointer)); [discriminate|].
+    destruct (strict && (s32 (ptr_offset hdr) <? 0)); [discriminate|].
+    destruct (times (totalSize (structSize hdr)) (s32 (ptr_offset hdr))); [|discriminate].
+    destruct (negb (regionInBounds s z0 z1)); [discriminate|].
+    intros H. inversion H; subst. intros _. cbn [p_size p_bit]. rewrite structSize_data. split; [lia|reflexivity].
+  - destruct (listType val =? 1).
+    + intros H. inversion H; subst. intros K. discriminate K.
+    + destruct (elementSize val); [|discriminate]. intros H. inversion H; subst. intros K. discriminate K.
+Qed.
+
+Lemma readPtr_caligned strict m rl sid s a dep q rl' :
+  readPtr strict m rl sid s a dep = (Ok q, rl') -> caligned q.
+Proof.
+  unfold readPtr. destruct (resolveFarPointer strict m sid s a) as [[[[dsid dst] base] val]| |]; try discriminate.
+  destruct (val =? 0); [intros H; inversion H; subst; intros K; discriminate K|].
+  destruct (dep =? 0); [discriminate|]. cbv zeta.
+  destruct (pointerType val =? structPointer).
+  { unfold readStructPtr. destruct (element base (ptr_offset val) 8); [|discriminate].
+    destruct (negb (regionInBounds dst z (totalSize (structSize val)))); [discriminate|].
+    unfold canRead, struct_readSize. cbn [p_valid p_size]. destruct (rl >=? totalSize (structSize val)); [|discriminate].
+    intros H. inversion H; subst. intros K. discriminate K. }
+  destruct (pointerType val =? listPointer).
+  { destruct (readListPtr strict dsid dst base val) as [lp| |] eqn:EL; try discriminate.
+    unfold canRead. destruct (rl >=? list_readSize lp); [|discriminate].
+    intros H. inversion H; subst. pose proof (readListPtr_caligned _ _ _ _ _ _ EL) as C. intros K. cbn [p_comp p_size p_bit] in *. apply C. exact K. }
+  destruct (pointerType val =? otherPointer); [|discriminate].
+  destruct (negb (otherPointerType val =? 0)); [discriminate|].
+  intros H. inversion H; subst. intros K. discriminate K.
+Qed.
 
 (* ------------------------------------------------------------------ helpers *)
 Lemma seg_write_slots data cap A ws : 0 <= A -> A + 8 * zlen ws <= zlen data -> zlen data < 4294967296 ->
@@ -165,11 +195,11 @@ Definition Qconcl (data : list Z) (v : value) (w' : world) (cp : Ptr) : Prop :=
       enc F (norm v) (a / 8) (zlen data / 8) = COk (ptr_word cp a, body).
 
 Definition Q_ptr (f : nat) : Prop := forall data cap rl p v w' cp,
-  hinv data -> wf_ptr m p -> aligned p -> den true m 0 [] p v -> cdom v = true ->
+  hinv data -> wf_ptr m p -> aligned p -> caligned p -> den true m 0 [] p v ->
   canonical_ptr c fx f (dstw data cap m rl) 0 p = KOk (w', cp) -> Qconcl data v w' cp.
 
 Definition Q_list (f : nat) : Prop := forall data cap rl p v w' cp,
-  hinv data -> wf_ptr m p -> p_valid p = true -> p_kind p = KList -> den true m 0 [] p v -> cdom v = true ->
+  hinv data -> wf_ptr m p -> p_valid p = true -> p_kind p = KList -> caligned p -> den true m 0 [] p v ->
   canonical_list c fx f (dstw data cap m rl) 0 p = KOk (w', cp) -> Qconcl data v w' cp.
 
 (* the destination struct of a fill: a struct of segment 0 at byte address A with dn data words
@@ -181,7 +211,7 @@ Definition Q_fill (f : nat) : Prop := forall data cap rl dst s ws vs A dn pn w',
   hinv data -> dst_at dst A dn pn -> 0 <= A -> A mod 8 = 0 -> 0 <= dn -> 0 <= pn < 65536 ->
   A + 8 * dn + 8 * pn <= zlen data ->
   p_valid s = true -> p_kind s = KStruct -> wf_ptr m s -> aligned s ->
-  den true m 0 [] s (VStruct ws vs) -> forallb cdom vs = true ->
+  den true m 0 [] s (VStruct ws vs) ->
   dn <= zlen ws -> pn <= zlen vs ->
   fill_canonical c fx f (dstw data cap m rl) dst s = KOk w' ->
   exists pwords kids cap' rl',
@@ -193,7 +223,7 @@ Definition Q_fill (f : nat) : Prop := forall data cap rl dst s ws vs A dn pn w',
 
 Lemma fill_step f : Q_ptr f -> Q_fill (S f).
 Proof.
-  intros HQ data cap rl dst s ws vs A dn pn w' Hi (Dv & Dseg & Doff & Dsz) HA HAm Hdn Hpn Hb Hv Hk Hwf Hal D Hsd Hdw Hpv H.
+  intros HQ data cap rl dst s ws vs A dn pn w' Hi (Dv & Dseg & Doff & Dsz) HA HAm Hdn Hpn Hb Hv Hk Hwf Hal D Hdw Hpv H.
   destruct Hi as [Hi1 Hi2].
   destruct (den_struct_inv _ _ _ _ _ _ D Hv Hk) as (d & vs0 & Ev & Wz & Sl & Lvs & K).
   inversion Ev; subst ws vs0; clear Ev.
@@ -249,12 +279,11 @@ Proof.
     { pose proof (struct_ptr_safe c m rl0 s i Hm (conj Hwf (fun _ => Hk)) ltac:(lia)) as SS.
       rewrite (struct_ptr_unfold c m rl0 s i Hv ltac:(unfold zlen in *; lia)), Hstrict, ER in SS. cbn in SS. apply SS. reflexivity. }
     assert (AP : aligned p0) by (eapply readPtr_aligned; exact ER).
-    assert (SD : cdom (nthv vs i) = true).
-    { unfold nthv. eapply forallb_In; [exact Hsd|]. apply nth_In. unfold zlen in *. lia. }
+    assert (CAP : caligned p0) by (eapply readPtr_caligned; exact ER).
     change (w_set_rl (dstw data0 cap0 m rl0) InSrc rl1) with (dstw data0 cap0 m rl1) in Hs0.
     destruct (canonical_ptr c fx f (dstw data0 cap0 m rl1) 0 p0) as [[w2 cp]| | |] eqn:EC; try discriminate.
     cbn [kbind] in Hs0.
-    destruct (HQ data0 cap0 rl1 p0 (nthv vs i) w2 cp Hinv0 WP AP DP SD EC) as (body & cap2 & rl2 & -> & Hinv2 & Hcp & Henc).
+    destruct (HQ data0 cap0 rl1 p0 (nthv vs i) w2 cp Hinv0 WP AP CAP DP EC) as (body & cap2 & rl2 & -> & Hinv2 & Hcp & Henc).
     unfold struct_set_ptr in Hs0. rewrite Dv, Dsz in Hs0. cbn [negb orb PointerCount] in Hs0.
     destruct (i >=? pn) eqn:Eip; [unfold zlen in *; lia|].
     rewrite Dseg in Hs0.
@@ -290,13 +319,13 @@ Proof.
       replace ((A + 8 * dn) / 8) with (A / 8 + dn) in Ec0 by lia. exact Ec0.
 Qed.
 
-(* ------------------------------------------------------------------ for the next step (canonicalPtr, struct case):
-   Q_fill f -> Q_ptr (S f) on [cdom]: canonicalStructSize_spec gives the size, alloc_seg0 the fresh block at the end
-   (set_slots_end), Q_fill the block and the children; remaining: assembling enc's struct case (enc_cells_app_words,
-   size checks, ptr_word = struct_word) -- drafted, not closed in this round *)
+(* ------------------------------------------------------------------ canonicalPtr
+   Q_fill f -> Q_list f -> Q_ptr (S f): null; struct (canonicalStructSize_spec gives the size, alloc_seg0 the
+   fresh block at the end, Q_fill the block and the children, then enc's struct case); list = Q_list;
+   capability pointer: KErr, excluded by the hypothesis *)
 Lemma ptr_step f : Q_fill f -> Q_list f -> Q_ptr (S f).
 Proof.
-  intros HF HL data cap rl p v w' cp Hi Hwf Hal D Hsd H. rewrite canonical_ptr_S in H.
+  intros HF HL data cap rl p v w' cp Hi Hwf Hal Hcal D H. rewrite canonical_ptr_S in H.
   destruct (p_valid p) eqn:Hv; cbn [negb] in H.
   2:{ (* null *)
     inversion H; subst w' cp; clear H. pose proof (den_null_iff _ _ _ _ _ _ D) as Hn. rewrite Hv in Hn.
@@ -304,7 +333,7 @@ Proof.
     split; [reflexivity|]. split; [exact Hi|]. split; [left; reflexivity|].
     intros a F _ _ _ HFd. cbn [norm vdepth] in HFd. destruct F; [lia|]. reflexivity. }
   destruct (p_kind p) eqn:Hk.
-  2:{ exact (HL data cap rl p v w' cp Hi Hwf Hv Hk D Hsd H). }
+  2:{ exact (HL data cap rl p v w' cp Hi Hwf Hv Hk Hcal D H). }
   2:{ discriminate H. }
   destruct v as [| |ws0 vs| |]; try (exfalso; inversion D; subst; congruence).
   destruct Hfx as (_ & _ & Hfn & _). rewrite Hfn, Hstrict in H. cbn [w_src dstw] in H.
@@ -346,7 +375,7 @@ Proof.
   assert (T0 : 0 <= k) by lia. assert (T1 : zlen data + 8 * k + 8 * j <= zlen data1) by lia.
   assert (T3 : k <= zlen ws) by (unfold k, zlen in *; lia). assert (T4 : j <= zlen vs) by (unfold j, zlen in *; lia).
   destruct (HF data1 cap1 rl ss p ws vs (zlen data) k j w2 Hinv1 Hdst Z0 Hi1 T0 Hj0 T1
-               Hv Hk Hwf Hal D Hsd T3 T4 Ef)
+               Hv Hk Hwf Hal D T3 T4 Ef)
     as (pwords & kids & cap2 & rl2 & Lp & -> & Hinv2 & Hcells).
   set (dws := firstn (Z.to_nat k) ws) in *.
   assert (Edws : dws = strip0 ws) by (unfold dws, k, zlen; rewrite Nat2Z.id; symmetry; apply strip0_firstn).
